@@ -192,7 +192,12 @@ def holds(c, v):
     return any(same_val(x, v) for x in vs)
 
 
+# round k1: callables whose return value is NOT a bool - `inc` / `exc` read it by truthiness (`if f(**row)`): `lambda a: a` (the cell
+# itself: None / 0 / 0.0 / '' falsy, NaN / inf / every other value truthy), `lambda a, b: a or b`, `lambda: <constant>`
+CONSTV = [0, 1, 2, 0.0, 2.5, '', 'x', None, float('nan'), float('inf')]
 PREDS = {
+    'ident': (1, lambda x: x),
+    'orelse': (2, lambda x, y: x or y),
     'isnone': (1, lambda x: x is None),
     'notnone': (1, lambda x: x is not None),
     'isstr': (1, lambda x: isinstance(x, str)),
@@ -204,6 +209,8 @@ def pred(rng, cols):
     r = rng.random()
     if r < 0.1:
         return ('const', rng.random() < 0.5)
+    if r < 0.2:
+        return ('constv', rng.choice(CONSTV))
     kind = rng.choice(sorted(PREDS))
     k = PREDS[kind][0]
     if k > len(cols):
@@ -214,24 +221,24 @@ def pred(rng, cols):
 def pred_wire(p):
     if p is None:
         return 'N'
-    if p[0] == 'const':
-        return '(fn const %s)' % enc(p[1])
+    if p[0] in ('const', 'constv'):
+        return '(fn %s %s)' % (p[0], enc(p[1]))
     return '(fn %s%s)' % (p[0], ''.join(' ' + enc(a) for a in p[1:]))
 
 
 def pred_py(p):
-    if p[0] == 'const':
+    if p[0] in ('const', 'constv'):
         b = p[1]
         return lambda: b
-    body = {'isnone': '%s is None', 'notnone': '%s is not None', 'isstr': 'isinstance(%s, str)',
+    body = {'ident': '%s', 'orelse': '%s or %s', 'isnone': '%s is None', 'notnone': '%s is not None', 'isstr': 'isinstance(%s, str)',
             'samenone': '(%s is None) == (%s is None)'}[p[0]] % tuple(p[1:])
     return eval('lambda %s: %s' % (', '.join(p[1:]), body))
 
 
 def pred_holds(p, row):
-    if p[0] == 'const':
-        return p[1]
-    return PREDS[p[0]][1](*[row[a] for a in p[1:]])
+    if p[0] in ('const', 'constv'):
+        return bool(p[1])
+    return bool(PREDS[p[0]][1](*[row[a] for a in p[1:]]))
 
 
 def kvw(d):
@@ -286,6 +293,21 @@ def lines_of(rng, sc):
         out.append('(flt find %s %s %s)' % (tw, enc(rng.choice(scols)), tail))
     elif rng.random() < 0.04:
         out.append('(flt find %s %s %s)' % (tw, enc('q'), tail))      # find_<col> of a column that is not there: KeyError
+    if rng.random() < 0.4:
+        # one_or_none(f?, exc = {...}, find = k, **conds)  (round k1: modelled, Table.oneOrNone).  `exc` is expanded as keywords
+        # (`res.exc(**exc)`): string columns only; an empty dict is falsy (no exclusion); `find` a column, '' (falsy), or a name that
+        # is not a column (KeyError, but only when exactly one row is left)
+        r = rng.random()
+        if r < 0.45 or not scols:
+            ex = 'N'
+        elif r < 0.5:
+            ex = '(D)'
+        else:
+            ks = rng.sample(scols, 1 if rng.random() < 0.75 or len(scols) < 2 else 2)
+            ex = kvw({c: cond(rng, t[c]) for c in ks})
+        r = rng.random()
+        fd = 'N' if r < 0.5 or not scols else (enc(rng.choice(scols)) if r < 0.9 else enc(rng.choice(['', 'q'])))
+        out.append('(flt one %s %s %s %s)' % (tw, tail, ex, fd))
     return out
 
 
@@ -340,8 +362,8 @@ def _conds(x):
 def _pred(x):
     if x == 'N':
         return None
-    if x[1] == 'const':
-        return pred_py(('const', proto.dec(x[2])))
+    if x[1] in ('const', 'constv'):
+        return pred_py((x[1], proto.dec(x[2])))
     return pred_py((x[1],) + tuple(proto.dec(a) for a in x[2:]))
 
 
@@ -373,6 +395,13 @@ def run_line(state, sx):
         return 'ok ' + enck(dict(res))
     if op == 'find':
         return 'ok ' + enc(call(d, op, _pred(args[2]), _conds(args[3]), _conds(args[4]), key=proto.dec(args[1])))
+    if op == 'one':
+        p, kw, dc = _pred(args[1]), _conds(args[2]), _conds(args[3])
+        pos = ([p] if p is not None else []) + ([dc] if dc is not None else [])
+        res = d.one_or_none(*pos, exc=_conds(args[4]), find=None if args[5] == 'N' else proto.dec(args[5]), **kw)
+        if isinstance(res, dict):
+            return 'ok ' + enck(dict(res))
+        return 'ok ' + enc(res)
     return 'bad-op'
 
 
@@ -569,11 +598,20 @@ def laws(rng, tier, ctx):
         if p is None or dc is None:
             count += 1
             ocase = dict(tag='law-one-or-none:' + tag, lines=['(flt inc %s %s)' % (tw, tail)])
-            sel_rows = [r for r, w in zip(all_rows, want) if w]
+            # exc = {col: condition} (round k1): rows satisfying ALL of its conditions are taken out of the selection; {} / None exclude nothing
+            exd = None
+            strcols = [c for c in t if isinstance(c, str)]
+            if strcols and rng.random() < 0.5:
+                exd = {c: cond(rng, t[c]) for c in rng.sample(strcols, 1 if rng.random() < 0.7 or len(strcols) < 2 else 2)} if rng.random() < 0.9 else {}
+            out_rows = [bool(exd) and all(holds(c, t[k][i]) for k, c in exd.items()) for i in range(nrows)]
+            sel_rows = [r for r, w, o in zip(all_rows, want, out_rows) if w and not o]
+            if exd is not None:
+                ocase = dict(tag='law-one-or-none-exc:' + tag, lines=['(flt one %s %s %s N)' % (tw, tail, kvw(exd))])
             fc = rng.choice(skeys(t)) if t and rng.random() < 0.4 else None
             try:
                 args = ([pred_py(p)] if p else []) + ([{k: cond_py(c) for k, c in dc.items()}] if dc is not None else [])
-                got = with_timeout(lambda: build().one_or_none(*args, find=fc, **{k: cond_py(c) for k, c in kw.items()}), 5)
+                got = with_timeout(lambda: build().one_or_none(*args, find=fc, exc=None if exd is None else {k: cond_py(c) for k, c in exd.items()},
+                                                               **{k: cond_py(c) for k, c in kw.items()}), 5)
                 if len(sel_rows) > 1:
                     yield Finding('violation', ocase, 'one_or_none returned %r although %d rows are selected' % (got, len(sel_rows)))
                 elif len(sel_rows) == 0:
